@@ -16,7 +16,7 @@ def lazyCalls (items : List Item) : List Event :=
 /-- The specification: what one statement must produce. -/
 def specStatement (cfg : Cfg) (th : Nat → Sev) (sev : Sev) (tag : Option Str) (items : List Item) :
     List Event :=
-  if sev < cfg.minSev ∨ evalF th cfg.filter sev = false then []
+  if sev < cfg.minSev ∨ evalF th cfg.filter sev tag = false then []
   else lazyCalls items ++
     (.fmt sev tag (texts items) :: (List.range cfg.members).map fun k => .sink k sev tag (texts items))
 
@@ -106,7 +106,7 @@ theorem statement_spec (cfg : Cfg) (th : Nat → Sev) (sev : Sev) (tag : Option 
   · simp [hmin]
   · simp only [hmin, if_false, false_or]
     unfold construct
-    by_cases hf : evalF th cfg.filter sev = true
+    by_cases hf : evalF th cfg.filter sev tag = true
     · simp only [hf, if_true, Bool.true_eq_false, if_false]
       cases named with
       | none =>
@@ -126,7 +126,7 @@ theorem statement_spec (cfg : Cfg) (th : Nat → Sev) (sev : Sev) (tag : Option 
           rw [← lazyCalls_append, List.take_append_drop]
         simp only [List.nil_append, List.append_nil, destroy, if_true, Option.getD_some, ht]
         rw [hl]
-    · have hf' : evalF th cfg.filter sev = false := by simpa using hf
+    · have hf' : evalF th cfg.filter sev tag = false := by simpa using hf
       simp only [hf', Bool.false_eq_true, if_false, if_true]
       cases named with
       | none =>
@@ -147,8 +147,8 @@ theorem statement_spec (cfg : Cfg) (th : Nat → Sev) (sev : Sev) (tag : Option 
 
 /-! ### two streams open at the same time -/
 
-def enabled (cfg : Cfg) (th : Nat → Sev) (sev : Sev) : Bool :=
-  !(decide (sev < cfg.minSev)) && evalF th cfg.filter sev
+def enabled (cfg : Cfg) (th : Nat → Sev) (sev : Sev) (tag : Option Str) : Bool :=
+  !(decide (sev < cfg.minSev)) && evalF th cfg.filter sev tag
 
 /-- the callables of two interleaved item lists, in the order they are streamed; a disabled stream
 calls none of its callables -/
@@ -167,8 +167,8 @@ of the stream declared last, then the record of the stream declared first — ea
 severity, tag and text -/
 def specOverlap (cfg : Cfg) (th : Nat → Sev) (sa : Sev) (ta : Option Str) (is : List Item)
     (sb : Sev) (tb : Option Str) (js : List Item) : List Event :=
-  lazyMerge (enabled cfg th sa) (enabled cfg th sb) is js ++
-    emit cfg (enabled cfg th sb) sb tb js ++ emit cfg (enabled cfg th sa) sa ta is
+  lazyMerge (enabled cfg th sa ta) (enabled cfg th sb tb) is js ++
+    emit cfg (enabled cfg th sb tb) sb tb js ++ emit cfg (enabled cfg th sa ta) sa ta is
 
 theorem lchain_dead' (o : Obj) (items : List Item) (hb : o.buf = none) :
     lchain o items = (o, []) := by
@@ -223,14 +223,14 @@ theorem overlap_spec (cfg : Cfg) (th : Nat → Sev) (sa : Sev) (ta : Option Str)
     (sb : Sev) (tb : Option Str) (js : List Item) :
     overlap cfg th sa ta is sb tb js = specOverlap cfg th sa ta is sb tb js := by
   have hmk : ∀ sev tag, (if sev < cfg.minSev then (⟨false, sev, tag, none⟩ : Obj) else construct cfg th sev tag)
-      = objOf (enabled cfg th sev) sev tag [] := by
+      = objOf (enabled cfg th sev tag) sev tag [] := by
     intro sev tag
     unfold enabled construct objOf
     by_cases h1 : sev < cfg.minSev
     · simp [h1]
-    · by_cases h2 : evalF th cfg.filter sev = true
+    · by_cases h2 : evalF th cfg.filter sev tag = true
       · simp [h1, h2]
-      · have : evalF th cfg.filter sev = false := by simpa using h2
+      · have : evalF th cfg.filter sev tag = false := by simpa using h2
         simp [h1, this]
   unfold overlap specOverlap
   simp only [hmk, interleave2_spec, destroy_objOf]
@@ -255,7 +255,7 @@ theorem run_spec (cfg : Cfg) (th : Nat → Sev) (ops : List Op) : run cfg th ops
 
 /-- exactly once: an enabled statement yields exactly one `fmt` event -/
 theorem exactly_once (cfg : Cfg) (th : Nat → Sev) (sev : Sev) (tag : Option Str) (items : List Item)
-    (named : Option Nat) (hmin : ¬ sev < cfg.minSev) (hf : evalF th cfg.filter sev = true) :
+    (named : Option Nat) (hmin : ¬ sev < cfg.minSev) (hf : evalF th cfg.filter sev tag = true) :
     ((statement cfg th sev tag items named).filter fun e => match e with | .fmt _ _ _ => true | _ => false)
       = [.fmt sev tag (texts items)] := by
   rw [statement_spec]
@@ -280,7 +280,7 @@ theorem exactly_once (cfg : Cfg) (th : Nat → Sev) (sev : Sev) (tag : Option St
 /-- nothing when disabled: neither the formatter nor a sink nor a lazy callable -/
 theorem nothing_when_disabled (cfg : Cfg) (th : Nat → Sev) (sev : Sev) (tag : Option Str)
     (items : List Item) (named : Option Nat)
-    (h : sev < cfg.minSev ∨ evalF th cfg.filter sev = false) :
+    (h : sev < cfg.minSev ∨ evalF th cfg.filter sev tag = false) :
     statement cfg th sev tag items named = [] := by
   rw [statement_spec]; unfold specStatement; simp [h]
 
@@ -291,7 +291,8 @@ theorem form_irrelevant (cfg : Cfg) (th : Nat → Sev) (sev : Sev) (tag : Option
   rw [statement_spec, statement_spec]
 
 /-- double negation of a filter is the filter (the specialisation `not_filter<not_filter<F>>`) -/
-theorem not_not (th : Nat → Sev) (f : FExpr) (s : Sev) : evalF th (.not (.not f)) s = evalF th f s := by
+theorem not_not (th : Nat → Sev) (f : FExpr) (s : Sev) (t : Option Str) :
+    evalF th (.not (.not f)) s t = evalF th f s t := by
   simp [evalF]
 
 example : statement ⟨2, .and (.thr 0) (.not (.thr 1)), 2⟩ (fun n => if n = 0 then 2 else 5) 3 (some ['t'])
